@@ -69,6 +69,12 @@ def cases(tier):
                         yield {'mode': mode, 'L': L, 'size': size,
                                'orphan': orphan, 'overlap': overlap,
                                'se': [g['se'][0], g['se'][-1]]}
+                    if overlap <= 1 and orphan <= 2:
+                        # the same windows over the reversed sequence
+                        yield {'mode': 'rev', 'L': L, 'size': size,
+                               'orphan': orphan, 'overlap': overlap,
+                               'se': [g['se'][0], g['se'][-1]],
+                               'end_fixed': 0}
                     if size >= 1 and overlap < size and L >= 1:
                         yield {'mode': 'nav', 'L': L, 'size': size,
                                'orphan': orphan, 'overlap': overlap}
@@ -126,22 +132,35 @@ def _var_template():
     return t
 
 
-def render_lit(L, start, end, size, orphan, overlap, given=None):
+ITEM = re.compile(r'\{(\d+)\}\[(\d+);')
+
+
+def render_lit(L, start, end, size, orphan, overlap, given=None,
+               reverse=False):
     from DocumentTemplate import HTML
-    attrs = []
+    attrs = ['reverse'] if reverse else []
     vals = dict(start=start, end=end, size=size, orphan=orphan,
                 overlap=overlap)
     for i, k in enumerate(('start', 'end', 'size', 'orphan', 'overlap')):
         if given is None or given[i]:
             attrs.append('%s=%d' % (k, vals[k]))
-    src = ('<dtml-in seq %s>' % ' '.join(attrs) + BODY +
+    src = ('<dtml-in seq %s>' % ' '.join(attrs) +
+           ('{<dtml-var sequence-item>}' if reverse else '') + BODY +
            '<dtml-else>EMPTY</dtml-in>')
     t = _templates.get(src)
     if t is None:
         if len(_templates) > 5000:
             _templates.clear()
         t = _templates[src] = HTML(src)
-    return t(seq=list(range(1, L + 1)))
+    out = t(seq=list(range(1, L + 1)))
+    if reverse:
+        # the windows are windows of positions; position p of the reversed
+        # sequence shows element L+1-p
+        for item, number in ITEM.findall(out):
+            if int(item) != L + 1 - int(number):
+                return 'position %s shows element %s of %d' % (number, item, L)
+        out = re.sub(r'\{\d+\}', '', out)
+    return out
 
 
 def _form_template(form):
@@ -338,6 +357,9 @@ def run_block(case):
                 else:
                     if mode == 'lit':
                         out = render_lit(L, start, end, size, orphan, overlap)
+                    elif mode == 'rev':
+                        out = render_lit(L, start, end, size, orphan, overlap,
+                                         reverse=True)
                     else:
                         out = render_var(L, start, end, size, orphan, overlap,
                                          as_str=(start + end) % 2 == 0)
